@@ -6,7 +6,7 @@ export GOFLAGS=-mod=mod GOPROXY=off GOSUMDB=off GOTOOLCHAIN=local
 P=$1; N=$2; SRC=/tmp/seed/$P/_out/$N
 [ -f $SRC/patch.diff ] || { echo "no patch"; exit 2; }
 WT=$(mktemp -d /tmp/seedwt.XXXXXX); rmdir $WT
-git -C /repo worktree add --detach $WT fbf61ed7b -q || exit 2
+git -C /repo worktree add --detach $WT ${SEEDBASE:-HEAD} -q || exit 2
 trap 'git -C /repo worktree remove --force $WT' EXIT
 PKG=$(python3 -c "import json;print(json.load(open('$SRC/meta.json'))['demo_pkg'])")
 RUN=$(python3 -c "import json;print(json.load(open('$SRC/meta.json'))['demo_run'])")
